@@ -2,7 +2,7 @@
     noclobber; here-documents byte-exact.
     Only pinned statements, [exact], and [Print Assumptions]. *)
 From BV Require Import Base.Prelude Redir.FdTable Redir.Apply Redir.Spec Redir.Prog Redir.Interp Redir.SpecInterp
-  Redir.Proofs Redir.HereDoc Redir.HereProofs.
+  Redir.Proofs Redir.ProgProofs Redir.HereDoc Redir.HereProofs Redir.GenTie gen.C10Defaults.
 
 (** For every redirection list, every noclobber setting, every world and every layered table
     (per-command layer L over the shell's persistent table P) whose flat view is T: applying the
@@ -49,12 +49,29 @@ Theorem c10_exec_persists : forall nc m rs w P,
 Proof. exact exec_persists. Qed.
 Print Assumptions c10_exec_persists.
 
+(** Program level.  For every script of the command language (simple commands observing their
+    descriptors, exec, brace groups, subshells, loops, functions with definition and call
+    redirections, arbitrarily nested, arbitrary redirection lists), every noclobber setting and
+    every initial file system: if the specification's run stays outside the listed deviation
+    classes, the model of brush's interpreter ends with the same file system (hence every command
+    saw the descriptors the specification gives it: each observer writes what it sees) and the
+    shell's table has the specification's flat view. *)
+Theorem c10_run_refines_spec_outside_known : forall nc m prog w P ws Ts f,
+  srun_script nc m prog w P = (ws, Ts, f) -> any_flag f = false ->
+  exists Pm, run_script nc m prog w P = (ws, Pm) /\ forall n, flat_lookup Pm n = flat_lookup Ts n.
+Proof. exact run_refines_spec_outside_known. Qed.
+Print Assumptions c10_run_refines_spec_outside_known.
+
+Theorem c10_program_nonvacuous : any_flag (snd (srun_script false [] ex_prog ex_world ex_tbl)) = false.
+Proof. exact ex_prog_unflagged. Qed.
+Print Assumptions c10_program_nonvacuous.
+
 (** An external command receives exactly the flat view, outside the two listed classes (one
     of 0,1,2 closed; one of 0,1,2 a standard stream of the shell of another number). *)
-Theorem c10_child_sees_view_outside_known : forall w L P T,
-  std_ok w -> agree T L P ->
+Theorem c10_child_sees_view_outside_known : forall L P T,
+  agree T L P ->
   k_std_dup (std_flags T) = false -> k_std_closed (std_flags T) = false ->
-  forall n, child_view w L P n = flat_lookup T n.
+  forall n, child_view L P n = flat_lookup T n.
 Proof. exact child_sees_view_outside_known. Qed.
 Print Assumptions c10_child_sees_view_outside_known.
 
@@ -137,3 +154,28 @@ Theorem c10_heredoc_nonvacuous :
   = Some ([69;79;70;88;10; 32;69;79;70;10; 120;10]%N, [114]%N).
 Proof. exact heredoc_example. Qed.
 Print Assumptions c10_heredoc_nonvacuous.
+
+(** The constants of the hand-written model equal the tables regenerated from the Rust source
+    on this run (default descriptors, OpenOptions per redirect kind incl. the noclobber arm,
+    here-document operators, the stripped character, the quoting characters). *)
+Theorem c10_tables_match_source :
+  default_fd RRead = c10_default_fd_Read /\ default_fd RWrite = c10_default_fd_Write /\
+  default_fd RAppend = c10_default_fd_Append /\ default_fd RReadWrite = c10_default_fd_ReadAndWrite /\
+  default_fd RClobber = c10_default_fd_Clobber /\
+  default_dup_fd false = c10_default_dup_in /\ default_dup_fd true = c10_default_dup_out /\
+  c10_default_fd_DuplicateInput = c10_default_dup_in /\ c10_default_fd_DuplicateOutput = c10_default_dup_out /\
+  c10_default_heredoc = 0%nat /\ c10_default_herestring = 0%nat /\ c10_std_fds = (0, 1, 2)%nat /\
+  flags_of false false RRead = fl6 c10_open_Read /\
+  (forall isf, flags_of false isf RWrite = fl6 c10_open_Write) /\
+  flags_of true false RWrite = fl6 c10_open_Write_nc_notfile /\
+  flags_of true true RWrite = fl6 c10_open_Write_nc_file /\
+  (forall nc isf, flags_of nc isf RAppend = fl6 c10_open_Append) /\
+  (forall nc isf, flags_of nc isf RReadWrite = fl6 c10_open_ReadAndWrite) /\
+  (forall nc isf, flags_of nc isf RClobber = fl6 c10_open_Clobber) /\
+  c10_here_ops = [([60; 60]%N, false); ([60; 60; 45]%N, true)] /\
+  (forall op b, In (op, b) c10_here_ops_parser <-> In (op, b) c10_here_ops) /\
+  TAB = c10_strip_char /\
+  (forall c, is_quoting_char c = existsb (N.eqb c) c10_quoting_chars) /\
+  (forall tok, requires_expansion tok = negb (existsb (fun c => existsb (N.eqb c) c10_requires_expansion_chars) tok)).
+Proof. exact tables_match_source. Qed.
+Print Assumptions c10_tables_match_source.
